@@ -229,7 +229,7 @@ def _c05_vm_sample(d, tier, coq, build, want=240):
 
 CONFIG = {
     "properties_file": "Properties/C05.v",
-    "proof_files": ["Base/Prelude.v", "Proofs/Verify.v", "Proofs/VerifyComplete.v", "Proofs/VerifyProxy.v", "Proofs/VerifyFuel.v", "Proofs/VerifyConc.v", "Proofs/VerifyTop.v", "Proofs/VerifyWriter.v", "Proofs/VerifyNames.v", "Proofs/VerifyFileConc.v", "Proofs/VerifyOpts.v", "Proofs/VerifyFacts.v", "Proofs/VerifyChunk.v"],
+    "proof_files": ["Base/Prelude.v", "Proofs/Verify.v", "Proofs/VerifyComplete.v", "Proofs/VerifyProxy.v", "Proofs/VerifyFuel.v", "Proofs/VerifyConc.v", "Proofs/VerifyTop.v", "Proofs/VerifyWriter.v", "Proofs/VerifyNames.v", "Proofs/VerifyFileConc.v", "Proofs/VerifyOpts.v", "Proofs/VerifyFacts.v", "Proofs/VerifyChunk.v", "Proofs/VerifyEof.v"],
     "model_files": ["Generated/GC05.v", "Model/Verify.v"],
     "extract": "XC05.v",
     "ml_main": "c05_main.ml",
@@ -240,7 +240,7 @@ CONFIG = {
         "the digest function is a parameter H : algorithm -> bytes -> encoded digest of every theorem, with NO assumption (no collision freedom is used); the correspondence supplies the SHA-2 values (crypto/sha256, crypto/sha512 of the Go standard library) to the extracted model as a table",
         "go-digest (pinned dependency): the algorithm table (names, encoded lengths, lower-case hex) is regenerated by the translator from its algorithm.go (kind c05_digest_algs); Digest.Validate's control flow and Verified() = (digest == alg:hex(hash)) are hand-modelled; all three algorithms are available because the harness links crypto/sha256 and crypto/sha512",
         "io.LimitedReader, io.TeeReader, io.ReadFull (io.ReadAtLeast) and io.CopyBuffer (incl. its write-error / io.ErrShortWrite handling: copy_loop_w) of the Go standard library are hand-modelled statement by statement and tied by the correspondence; os.File.ReadFrom falls back to io.Copy with a 32 KiB buffer for a *VerifyReader source (go1.26.8, linux) -- irrelevant: the theorems hold for every buffer size and C05_copybuffer_bufsz_independent proves the result is the same for all of them",
-        "reader scripts quantify over arbitrary chunking, 0-byte reads, any number of injected errors, data+EOF / data+error in one call, and readers for which io.EOF is not final (an Eof event answers (0, EOF) once and the script goes on); the clauses 'the whole reader equals the result', 'trailing bytes are an error', 'a failing reader is rejected' and the completeness theorems are stated for scripts without such a mid-script EOF (neof = 0): what lies behind an EOF is never read",
+        "reader scripts quantify over arbitrary chunking, 0-byte reads, any number of injected errors, data+EOF / data+error in one call, and readers for which io.EOF is not final (an Eof event answers (0, EOF) once and the script goes on); the clauses 'the whole reader equals the result', 'trailing bytes are an error', 'a failing reader is rejected' and the completeness theorems are stated for scripts without such a mid-script EOF (neof = 0); for every script C05_accepts_exactly_upto_eof / C05_trailing_before_eof_rejected say the same about the bytes before the first EOF (what lies behind an EOF is never read)",
         "descriptor sizes above 2^30 are outside the CORRESPONDENCE (the extracted model counts in Peano numbers) but inside theorems and oracle: Size 1<<62 / MaxInt64 are generated for ReadAll and the memory / limited / OCI / file stores under recover() (oracle: an error, no panic); they are not generated for the caching proxy, whose push goroutine cannot be guarded by the harness",
         "file system: os.CreateTemp names are unique, os.Rename is atomic and replaces the target (process runs as root), blobs/<alg>/<encoded> is injective in the digest string; disk faults of oci.Storage / file.Store (ENOSPC, a failing Close) are not injected -- note: file.Store.saveFile records digestToPath before the deferred Close, which a Close error would leave behind (not observable by this check)",
         "file.Store: resolveWritePath is modelled for relative slash-separated names (lexical filepath.Clean, refusal of names that leave the working directory; absolute names are generated only outside the working directory and refused) and compared with filepath.Clean on every generated name; symbolic links in the working directory, AllowPathTraversalOnWrite, the unpack annotation (pushDir) and manifest media types (restoreDuplicates, graph indexing) are not generated; names that alias one path ARE generated and modelled: there the property fails (known finding file-alias-clobbers-visible; C05_push_file_names assumes no_alias, C05_push_file_alias_refuted is the witness, C05_push_file_disable_overwrite needs no such hypothesis)",
